@@ -12,15 +12,15 @@ EXTENDS Naturals
 CONSTANTS ZAdd(_,_), ZSub(_,_), ZMul(_,_), ZCmp(_,_), ZFloorDivMod(_,_), ZLit(_), ZNeg(_), ZAbs(_),
           ZSign(_), ZIsEven(_), ZMod5Is0(_), ZPow10(_), ZPow2(_), ZDigits(_)
 CONSTANTS MaxFrac,    \* maximal number of fractional digits (18)
-          CoeffBits   \* coefficient range is -2^CoeffBits .. 2^CoeffBits-1 (127)
+          CoeffBits,  \* coefficient range is -2^CoeffBits .. 2^CoeffBits-1 (127)
+          CoeffMax, CoeffMin, MaxDigits   \* = 2^CoeffBits-1, -2^CoeffBits, decimal digits of CoeffMax: passed in as values so that
+                                          \* TLC evaluates them once (checked by the ASSUME below)
 
 Modes == {"Round05Up","RoundCeiling","RoundDown","RoundFloor","RoundHalfDown","RoundHalfEven","RoundHalfUp","RoundUp"}
 Zero == ZLit(0)
 One == ZLit(1)
 Two == ZLit(2)
-CoeffMax == ZSub(ZPow2(CoeffBits), One)
-CoeffMin == ZNeg(ZPow2(CoeffBits))
-MaxDigits == ZDigits(CoeffMax)
+ASSUME ZCmp(CoeffMax, ZSub(ZPow2(CoeffBits), One)) = 0 /\ ZCmp(CoeffMin, ZNeg(ZPow2(CoeffBits))) = 0 /\ MaxDigits = ZDigits(CoeffMax)
 ZEq(a, b) == ZCmp(a, b) = 0
 InRange(z) == ZCmp(CoeffMin, z) <= 0 /\ ZCmp(z, CoeffMax) <= 0
 Scale(c, k) == IF k = 0 THEN c ELSE ZMul(c, ZPow10(k))
